@@ -13,7 +13,7 @@ ID = "C08"
 LEVEL = "exploration"
 RULE = ("Hypothesis-generated histories over one project with a HARNESS-OWNED clock (time.time is interposed): tick(delta) with "
         "delta in {0, 0.3, 0.9, 1, 5, -1, -3, -100, +1e6}; run(T, outcome map incl. failures and launch failures, schedule tape, "
-        "--again); run aborted by SIGINT at a generated line; archive; restore of an archive whose timestamps were rewritten "
+        "--again); run aborted by SIGINT at a generated line; index rewritten in the old format 1 (next command migrates it); archive; restore of an archive whose timestamps were rewritten "
         "(far future, equal to an existing unrecorded directory, below everything); wipe+restore; gc. Several runs without a "
         "tick model several invocations within one second. Virtual children drop a uniquely named file into COND_OUT when they "
         "start. Before every step cond-out (paths + tree hashes) and the rows are snapshotted. Oracle per experiment execution: "
@@ -40,7 +40,7 @@ def _case(draw, tier):
     n = draw(st.sampled_from([2, 3, 4, 5, 6, 8]))
     steps = []
     for _ in range(n):
-        op = draw(st.sampled_from(["run"] * 6 + ["tick"] * 3 + ["archive", "restore_shift", "wipe_restore", "gc", "abort"]))
+        op = draw(st.sampled_from(["run"] * 6 + ["tick"] * 3 + ["archive", "restore_shift", "wipe_restore", "gc", "abort", "to_v1"]))
         s = {"op": op}
         if op in ("run", "abort"):
             s["target"] = draw(st.sampled_from([0, 0] + list(range(len(g["tasks"])))))
@@ -80,7 +80,7 @@ def strategy(tier):
 
 
 def examples(tier):
-    return 480 if tier == "quick" else 20000
+    return 960 if tier == "quick" else 20000
 
 
 def run_case(case):
@@ -219,6 +219,11 @@ def _run(case, work):
         elif op == "gc":
             res = run_cond(root, ["gc"], kspec={"clock": clock})
             summary["steps"].append("gc -> %r" % res["status"])
+        elif op == "to_v1":
+            # the index as Conductor <= 0.4.0 wrote it (format 1); the next command migrates it
+            if _downgrade_to_v1(root):
+                labels.add("index_migrated_from_v1")
+            summary["steps"].append("index rewritten in format 1")
         # (d) previously recorded version directories untouched
         post = trees.snapshot(out) if os.path.isdir(out) else {}
         for rel, snap in recorded_dirs.items():
@@ -235,6 +240,30 @@ def _run(case, work):
             seen.add(s[0])
             uv.append(s)
     return Outcome(uv, sorted(labels), nontrivial, summary)
+
+
+def _downgrade_to_v1(root):
+    import sqlite3
+    path = projgen.index_path(root)
+    if not os.path.exists(path):
+        return False
+    conn = sqlite3.connect(path)
+    try:
+        if conn.execute("PRAGMA user_version").fetchone()[0] != 2:
+            return False
+        rows = conn.execute("SELECT task_identifier, timestamp, git_commit_hash FROM version_index").fetchall()
+        conn.execute("DROP TABLE version_index")
+        conn.execute("CREATE TABLE version_index (task_identifier TEXT NOT NULL, timestamp INTEGER NOT NULL, "
+                     "git_commit TEXT NOT NULL, PRIMARY KEY (task_identifier, timestamp))")
+        conn.executemany("INSERT INTO version_index VALUES (?, ?, ?)", [(t, ts, c or "") for t, ts, c in rows])
+        conn.execute("PRAGMA user_version = 1")
+        conn.commit()
+    finally:
+        conn.close()
+    for n in os.listdir(os.path.dirname(path)):
+        if n.startswith("version_index_backup"):
+            os.unlink(os.path.join(os.path.dirname(path), n))
+    return True
 
 
 def _shift_archive(work, path, shift, tag):
